@@ -186,6 +186,7 @@ impl Fun {
 
 const SINGLE: u64 = 0xFF;
 const GETFN: u64 = 0xFE;
+const MAX_DEATHS: usize = 8;
 
 /// Mark a preparatory step of a program (compile on its own, function
 /// look-up). In a replay of another step of the same program it is part of
@@ -216,6 +217,16 @@ impl Check for C02 {
             return;
         }
         let Some(u) = build_unit(&cx.cfg, unit) else { return };
+        // Every death costs a fresh worker and a recompilation of the batch.
+        // A unit whose programs keep killing workers is given up after
+        // MAX_DEATHS (that many violations are already recorded for it); the
+        // run is then not exhaustive and `finish` turns that into a
+        // machinery error, so it can never count as "held".
+        if cx.skipped_cases().len() >= MAX_DEATHS {
+            cx.count("programs_abandoned", u.progs.len() as u64);
+            cx.note(format!("unit {unit} ({:?}) abandoned after {MAX_DEATHS} worker deaths", u.fields));
+            return;
+        }
         let rt = host::runtime();
         let batch = u.batch();
         let t0 = std::time::Instant::now();
@@ -362,6 +373,12 @@ impl Check for C02 {
         cx.count("ms_model", (us_model / 1000) as u64);
         cx.count("ms_calls", (us_call / 1000) as u64);
         cx.count("ms_unit_total", t0.elapsed().as_millis() as u64);
+    }
+    fn finish(&self, _cfg: &Cfg, agg: &mut vcore::Aggregate) {
+        let n = agg.counter("programs_abandoned");
+        if n > 0 {
+            agg.machinery_errors.push(format!("{n} programs were not run: their units were abandoned after {MAX_DEATHS} worker deaths each"));
+        }
     }
     fn describe(&self, cfg: &Cfg, unit: usize, sub: u64) -> Value {
         let Some(u) = build_unit(cfg, unit) else { return json!({"unit": unit}) };
